@@ -111,6 +111,10 @@ pub fn subs(run: &Arc<Run>) -> Vec<Arc<dyn Sub>> {
                     for bits in [62u32, 64, 128] {
                         for &ll in lens.iter() {
                             let info = || json!({"queries": q, "blowup": b, "grinding": g, "extension_degree": ext, "field_bits": bits, "log2_trace_length": ll});
+                            // contexts whose LDE domain exceeds 2^32 - 1 can neither be constructed nor decoded
+                            if (1u64 << ll) * b as u64 > u32::MAX as u64 {
+                                continue;
+                            }
                             let p = match proof_with(ll, bits, &opts) {
                                 Ok(p) => p,
                                 Err(e) => {
